@@ -252,7 +252,7 @@ func anyCmp(x, y any) int {
 // ctorCheck: slices passed to the variadic constructors are copied.
 func ctorCheck(kind string, st *Stats) *Viol {
 	p := tag("C16")
-	tuples := [][]int{{1}, {1, 2}, {2, 1, 3}, {3, 3, 1}}
+	tuples := [][]int{{1}, {1, 2}, {2, 1, 3}, {3, 3, 1}, intRange(1, 17), intRange(1, 33), intRange(1, 70)}
 	for _, t := range tuples {
 		arg := argSlice(t)
 		var vals func() []int
